@@ -103,8 +103,9 @@ class _Worker:
     th.start()
     th.join(timeout + 5)
     if th.is_alive() or not result.get('line'):
+      alive = th.is_alive()
       self.kill()
-      return {'status': 'timeout' if th.is_alive() else 'error', 'time': time.time() - t0}
+      return {'status': 'timeout' if alive else 'error', 'time': time.time() - t0}
     try:
       r = json.loads(result['line'])
     except Exception:
